@@ -310,6 +310,22 @@ def main(tier, seed, replay=None):
                     same = False
                 if not same:
                     diffs.append(({"sg": rdflib.Graph().parse(data=based_shapes, format="turtle"), "data": based_data}, "shapes document with a base IRI: the report parsed back from %s differs from the report graph of the API" % fmt, refb, None, kw_))
+        # ---- literals with line breaks, blanks before line breaks and other line-separator characters in values and messages:
+        # the command line prints the serialised report byte for byte
+        ml_shapes = ("@prefix sh: <http://www.w3.org/ns/shacl#> . @prefix ex: <http://ex.org/> .\n"
+                     "ex:ML a sh:NodeShape ; sh:targetClass ex:T ; sh:property [ sh:path ex:note ; sh:maxLength 3 ; sh:message \"\"\"too long: \nsecond line\t\n third \"\"\" ] .\n")
+        ml_data = rdflib.Graph()
+        for k_, txt in enumerate(["line one \nline two", "tab\t\nx  ", "sep\u2028arator", "nel\u0085x", "  lead and trail  \n", "cr\r\nlf"]):
+            ml_data.add((EX["m%d" % k_], RDF.type, EX.T))
+            ml_data.add((EX["m%d" % k_], EX.note, Literal(txt)))
+        ms_path, md_path = os.path.join(d, "ml_shapes.ttl"), os.path.join(d, "ml_data.nt")
+        open(ms_path, "w").write(ml_shapes)
+        ml_data.serialize(destination=md_path, format="nt")
+        ref_ml = S.run_validate(md_path, ms_path)
+        if ref_ml[0] == "ok":
+            for fmt in GRAPH_FORMATS + ["human", "table"]:
+                cli_jobs.append(({"sg": rdflib.Graph().parse(data=ml_shapes, format="turtle"), "data": ml_data}, ref_ml, fmt, ["-s", ms_path, "-f", fmt, md_path], {}))
+            stats["multi_line_literal_cli_cases"] = 1
         ref_files = S.run_validate(bd_path, bs_path)
         if ref_files[0] == "ok":
             for fmt in GRAPH_FORMATS + ["human", "table"]:
@@ -387,7 +403,7 @@ def main(tier, seed, replay=None):
         "distinct_nontrivial": stats["api_roundtrips"] + stats["cli_runs"],
         "rule": "(1) Tie A: cli.main() in-process with validate() replaced by a recorder, 21 flag sets and every pair of 11 independent flags (both orders for a third of them): every keyword received is in the generated table, and the values of max-depth/inference/abort/allow/advanced/iterate/meta/focus/format arrive unchanged; "
                 "(2) API: reports of random cases (all literal kinds and language tags, blank-node value nodes, complex paths, sh:detail nesting) x turtle/xml/json-ld/nt/n3: the returned bytes parse back to the same verdict and result keys, and (except JSON-LD) to a graph isomorphic to the report graph; "
-                "(2b) shapes documents stating a base IRI ('# baseURI:' header, @base, own file) with report IRIs under and next to the base, all five formats; (3) CLI: `python -m pyshacl -f fmt` on the same files for the five graph formats + human + table: parsed output = API report (isomorphic / verdict and result count), exit status 0 iff conforms",
+                "(2b) shapes documents stating a base IRI ('# baseURI:' header, @base, own file) with report IRIs under and next to the base, all five formats; (2c) values and messages with line breaks, blanks before line breaks, U+2028 / U+0085 / CR LF through the command line; (3) CLI: `python -m pyshacl -f fmt` on the same files for the five graph formats + human + table: parsed output = API report (isomorphic / verdict and result count), exit status 0 iff conforms",
         "distribution": dict(stats, option_cases=len(bodies), differences=len(diffs), option_value_errors=len(opt_bad), table_disagreements=len(failed)),
         "samples": meta[:1],
         "exhaustive": False,
